@@ -733,13 +733,14 @@ func (h *SexpHash) FillHashFromShadow(env *Zlisp, src interface{}) error {
 func fillHashHelper(r interface{}, depth int, env *Zlisp, preferSym bool) (Sexp, error) {
 	//Q("fillHashHelper() at depth %d, decoded type is %T\n", depth, r)
 
-	// a nil interface, or a nil pointer / slice / map, is nil in the script too
+	// a nil interface, or a nil pointer / map, is nil in the script too
+	// (a nil []byte stays the raw value it always was)
 	if r == nil {
 		return SexpNull, nil
 	}
 	rv := reflect.ValueOf(r)
 	switch rv.Kind() {
-	case reflect.Ptr, reflect.Map, reflect.Slice, reflect.Interface:
+	case reflect.Ptr, reflect.Map, reflect.Interface:
 		if rv.IsNil() {
 			return SexpNull, nil
 		}
